@@ -4,6 +4,7 @@ package c12
 
 import (
 	"context"
+	"time"
 	"math/big"
 
 	"perun.network/go-perun/channel"
@@ -157,7 +158,19 @@ func VerifC12Sync() {
 		st.Version += 1 + uint64(rt.NondetU8())
 		msg.CurrentTX = channel.Transaction{State: st, Sigs: make([]wallet.Sig, rt.Choice(4))}
 	}
-	go s.w.Client.VerifHandleSyncMsg(s.w.PeerWire, msg)
+	// the sender's address: the channel peer, or a made-up / offline address to
+	// which the reply cannot be delivered (Publish blocks until its context ends)
+	from := s.w.PeerWire
+	if rt.NondetBool() {
+		from = s.w.Other
+		s.w.Bus.Unreachable = func(a map[wallet.BackendID]wire.Address) bool { return channel.EqualWireMaps(a, s.w.Other) }
+	}
+	done := make(chan struct{})
+	go func() {
+		defer close(done)
+		s.w.Client.VerifHandleSyncMsg(from, msg)
+	}()
+	rt.QuiesceWait(done, 10500*time.Millisecond) // (syncReplyTimeout is 10 s)
 	s.after("c12.sync", 0)
 	rt.Reach("c12.sync")
 }
